@@ -62,7 +62,8 @@ def evaluate_case(case, prop):
 def first_violation(case, prop):
     res = evaluate_case(case, prop)
     for v in res['violations']:
-        return v, res
+        if v['prop'] == prop:
+            return v, res
     return None, res
 
 
